@@ -43,7 +43,8 @@ inline std::string xf(const MatTransform& t) {
 }
 } // namespace detail
 
-inline BatteryRecord runBattery(NifFile& nif, bool heavy = true) {
+// partitionQuery=false leaves out GetShapePartitions, the one query that edits the model (it converts strip partitions to triangle lists)
+inline BatteryRecord runBattery(NifFile& nif, bool heavy = true, bool partitionQuery = true) {
 	using namespace detail;
 	BatteryRecord R;
 	auto& hdr = nif.GetHeader();
@@ -162,7 +163,7 @@ inline BatteryRecord runBattery(NifFile& nif, bool heavy = true) {
 			bool hcg = heavy ? nif.CalcShapeTransformGlobalToSkin(s, cg) : false;
 			A(fmt("  calcGlobalToSkin ok=%d ", hcg) + (hcg ? xf(cg) : ""));
 		}
-		{
+		if (partitionQuery) {
 			NiVector<BSDismemberSkinInstance::PartitionInfo> pi;
 			std::vector<int> tp;
 			bool hp = nif.GetShapePartitions(s, pi, tp);
